@@ -9,6 +9,9 @@ from hypothesis import strategies as st
 from vp.gen import models, families as fam
 from vp.oracles import refmodel, hdr
 from vp import build
+from vp.runner import time_limit, CaseTimeout
+
+HDC_BUDGET_S = 120  # wall-clock budget of one HighestDensityContour construction
 
 NONNEG = ["Weibull", "LogNormal", "ExponentiatedWeibull", "GeneralizedGamma", "LogNormalNormFit"]
 
@@ -18,6 +21,8 @@ ATOL_P = 1e-14  # absolute accuracy of a cell probability that is a difference o
 
 @st.composite
 def hdc_case(draw, tier, dims=(2, 2, 2, 3), bimodal=False):
+    if draw(st.integers(0, 5)) == 0:
+        return draw(bimodal_case(tier))
     n = draw(st.sampled_from(list(dims)))
     spec = draw(
         models.model_spec(
@@ -65,18 +70,45 @@ def hdc_case(draw, tier, dims=(2, 2, 2, 3), bimodal=False):
     mode = draw(st.sampled_from(["explicit"] * 6 + ["default_limits", "default_deltas"]))
     case = dict(model=spec, alpha=alpha, limits=[list(l) for l in limits], deltas=deltas, mode=mode, np_seed=draw(st.integers(0, 2**31 - 1)))
     if mode == "default_limits":
+        case["deltas"] = None  # cell sizes chosen for other limits could mean 1e4 cells per axis
         # the implementation draws 5/(0.2^n alpha) joint samples for conditional dimensions
         case["alpha"] = float(10.0 ** draw(st.floats(-3 if tier == "quick" else -4, math.log10(0.3))))
         case["limits"] = None
         if n == 3:
             case["mode"] = "explicit"
             case["limits"] = [list(l) for l in limits]
+            case["deltas"] = deltas
     if case["mode"] == "default_deltas":
         if n == 2:
             case["deltas"] = None  # 0.25 % of the range -> 401 cells per axis
         else:
             case["mode"] = "explicit"
     return case
+
+
+@st.composite
+def bimodal_case(draw, tier):
+    """multi-modal densities (a mixture law declared as ScipyDistribution subclass): regions that split into components"""
+    sep = float(draw(st.floats(7.0, 14.0)))
+    scale0 = float(draw(st.floats(0.3, 1.5)))
+    lvl0 = dict(family="ScipyBimodal", params=dict(sep=sep, loc=0.0, scale=scale0))
+    second = draw(st.sampled_from(["bimodal", "lognormal_cond", "weibull"]))
+    hi0 = (sep + 14.0) * scale0
+    if second == "bimodal":
+        sep1, scale1 = float(draw(st.floats(7.0, 14.0))), float(draw(st.floats(0.3, 1.5)))
+        lvl1 = dict(family="ScipyBimodal", params=dict(sep=sep1, loc=0.0, scale=scale1))
+        hi1 = (sep1 + 14.0) * scale1
+    elif second == "lognormal_cond":
+        lvl1 = dict(family="LogNormal", conditional_on=0, fixed=dict(sigma=float(draw(st.floats(0.15, 0.4)))),
+                    dependent=dict(mu=dict(shape="logistics4", coef=[0.5, float(draw(st.floats(0.3, 1.2))), -1.0 / scale0, 0.5 * hi0])))
+        hi1 = 12.0
+    else:
+        lvl1 = dict(family="Weibull", params=dict(alpha=float(draw(st.floats(1.0, 4.0))), beta=float(draw(st.floats(1.2, 3.0))), gamma=0.0))
+        hi1 = 4.0 * lvl1["params"]["alpha"]
+    cells = [draw(st.integers(40, 160)), draw(st.integers(20, 120))]
+    limits = [[0.0, hi0], [0.0, hi1]]
+    deltas = [hi0 / cells[0], hi1 / cells[1]]
+    return dict(model=[lvl0, lvl1], alpha=float(10.0 ** draw(st.floats(-2.5, math.log10(0.3)))), limits=limits, deltas=deltas, mode="bimodal", np_seed=draw(st.integers(0, 2**31 - 1)))
 
 
 class HDCRun:
@@ -99,7 +131,11 @@ class HDCRun:
         with warnings.catch_warnings(record=True) as rec:
             warnings.simplefilter("always")
             try:
-                self.contour = HighestDensityContour(model, self.alpha, limits=limits, deltas=copy_deltas(deltas))
+                with time_limit(HDC_BUDGET_S):
+                    self.contour = HighestDensityContour(model, self.alpha, limits=limits, deltas=copy_deltas(deltas))
+            except CaseTimeout:
+                ctx.cls("timeout:hdc")  # inconclusive (e.g. the O(n^2 x components) optimal-start search on a huge boundary), never a violation
+                return
             except MemoryError:
                 return
             except Exception as e:  # noqa: BLE001
